@@ -671,6 +671,27 @@ Theorem C02_inner_einsum_equation : forall (F : Type) (Op : rops F) (A B : tenso
 Proof. exact @inner_e_uses_eq. Qed.
 Print Assumptions C02_inner_einsum_equation.
 
+Theorem C02_khatri_rao_einsum_equation : forall (F : Type) (Op : rops F) (Ms : list (tensor F)) (w mask : option (tensor F)) (skip : option nat) (R : tensor F),
+  2 <= length (skipl skip Ms) -> khatri_rao_e Op Ms w mask skip = Ok R ->
+  exists hasw ops s, R = reshape s (einsum Op (fst (eq_khatri_rao (length (skipl skip Ms)) hasw (match mask with Some _ => true | None => false end)))
+                                          (snd (eq_khatri_rao (length (skipl skip Ms)) hasw (match mask with Some _ => true | None => false end))) ops).
+Proof. exact @khatri_rao_e_equation. Qed.
+Print Assumptions C02_khatri_rao_einsum_equation.
+
+Theorem C02_kronecker_einsum_equation : forall (F : Type) (Op : rops F) (Ms : list (tensor F)) (skip : option nat) (reverse : bool), skipl skip Ms <> [] ->
+  kronecker_e Op Ms skip reverse =
+  let l := skipl skip Ms in
+  Ok (reshape [prod (map nrows l); prod (map ncols l)]
+        (einsum Op (fst (eq_kronecker (length l))) (snd (eq_kronecker (length l))) (if reverse then rev l else l))).
+Proof. exact @kronecker_e_uses_eq. Qed.
+Print Assumptions C02_kronecker_einsum_equation.
+
+Theorem C02_mttkrp_einsum_equation : forall (F : Type) (Op : rops F) (T : tensor F) (w : option (tensor F)) (fs : list (tensor F)) (mode : nat) R,
+  mttkrp_e Op T w fs mode = Ok R ->
+  exists ops, R = einsum Op (fst (eq_mttkrp (ndim T) mode)) (snd (eq_mttkrp (ndim T) mode)) ops.
+Proof. exact @mttkrp_e_equation. Qed.
+Print Assumptions C02_mttkrp_einsum_equation.
+
 Theorem C02_multi_mode_dot_einsum_equation : forall (F : Type) (Op : rops F) (T : tensor F) (Ms : list (tensor F)) modes skip tr R,
   multi_mode_dot_e Op T Ms modes skip tr = Ok R ->
   exists st ops, mmd_e_loop Op (sort_by_mode (zip3 Ms modes)) skip tr (ndim T) (mkS [] [] (seq 0 (ndim T)) (ndim T + 1) 0) = Ok st /\
